@@ -207,13 +207,13 @@ PROPS = {
                 "integrals, arguments unchanged. Distinct = (step kind, solver kind, molecule, shots) tuples; non-trivial = run "
                 "with >=3 steps of >=2 kinds or >=1 refusal.",
         "probes": ["C13.returned_arrays_modified_by_caller", "C13.get_rdm_again_after_caller_modified_result", "C13.resample_after_get_rdm",
-                   "C13.spin_resolved_form", "C13.padding_with_frozen_orbitals"],
+                   "C13.spin_resolved_form", "C13.padding_with_frozen_orbitals", "C13.unrestricted_form"],
         "components_real": ["FCISolver / CCSDSolver / MP2Solver (PySCF back ends) incl. their simulate-before-get_rdm protocol, VQESolver.get_rdm "
                             "(exact and sampled, resample route), SecondQuantizedMolecule.energy_from_rdms, pad_rdms_with_frozen_orbitals_restricted, "
                             "cirq backend, fermion_to_qubit_mapping"],
         "components_stub": [],
         "assumptions": _TRUST + ["fermion-to-qubit encodings are trusted here (C03), as are PySCF's integrals and solvers",
-                                 "unrestricted (UHF) references and the Psi4 back ends are not exercised"],
+                                 "the Psi4 back ends are not exercised (not installed)"],
     },
     "C19": {
         "world": "dsim.worlds.noise.NoiseWorld",
